@@ -16,7 +16,9 @@ Unescape(t) == IF t = <<>> THEN <<>>
 NoPanic == T.panic = ""
 \* text outside expressions passes through unchanged, '@@' yields '@', other '@' stay literal
 \* (expect comes from the reference scan in Scanner.tla: body text with @@ unescaped, an unterminated "@(" and the rest verbatim)
-BodyFaithful == T.kind = "body" /\ T.onlybody /\ NoPanic => T.out = T.expect
+BodyFaithful == /\ T.kind = "body" /\ T.onlybody /\ NoPanic => T.out = T.expect
+                \* ... in a context without any property no name is an allowed top level: every @name stays literal
+                /\ T.kind = "body" /\ T.onlybody0 /\ NoPanic => T.out0 = T.expect0
 \* a rewrite of the template that changes no expression (refactor.Template with the identity, as migrations use it)
 \* leaves what the template evaluates to unchanged: an escaped @@ stays an escaped @@
 RewriteFaithful == T.kind = "body" /\ NoPanic /\ T.rewritten => T.rewout = T.out
